@@ -502,6 +502,7 @@ func checkC06(w *World, r *Report) {
 	c06Clone(w, r, ra)
 	c06Constraint(w, r, ra)
 	c06Bookkeeping(w, r, ra)
+	c06ChangeDetection(w, r, ra)
 }
 
 func sharedStateStores(fn *ssa.Function, ra *repoAnchors) []*ssa.Store {
@@ -803,4 +804,59 @@ func bindingOf(bnd, v ssa.Value) bool {
 		return r == ssa.Value(al) && len(p) == 0
 	}
 	return false
+}
+
+// ---- C06.5: change detection covers the whole rule definition --------------------------------------------
+
+// c06ChangeDetection: an update replaces a loaded rule only if its hash differs. The hash must
+// therefore cover every field of the rule definition, otherwise a replaced version keeps matching.
+func c06ChangeDetection(w *World, r *Report, ra *repoAnchors) {
+	ri := r.Rule("C06.5", 2, "the rule hash used to detect changed rules covers every field of the rule definition")
+	ruleT := w.Named("internal/rules/config", "Rule")
+	if ruleT == nil {
+		r.Undecided(ri, "config.Rule not found")
+		return
+	}
+	fn := w.Method(ruleT, "Hash")
+	if fn == nil || fn.Blocks == nil {
+		r.Undecided(ri, "config.Rule.Hash not found")
+		return
+	}
+	r.Analysed(w.FnName(fn))
+	recv := fn.Params[0]
+	// sinks: digest writes, marshal calls and the returned value
+	var sinks []ssa.Value
+	for _, c := range callsIn(fn) {
+		if n := callName(c.Common()); isOrderSensitiveSink(c.Common()) || strings.Contains(n, "Marshal") || strings.HasSuffix(n, ".Encode") {
+			sinks = append(sinks, c.Common().Args...)
+		}
+	}
+	whole := false
+	for _, sv := range sinks {
+		if stripConv(sv) == ssa.Value(recv) {
+			whole = true
+		}
+		if u, ok := stripConv(sv).(*ssa.UnOp); ok && u.X == ssa.Value(recv) {
+			whole = true
+		}
+	}
+	st := ruleT.Underlying().(*types.Struct)
+	for i := 0; i < st.NumFields(); i++ {
+		f := st.Field(i)
+		ok := whole
+		if !ok {
+			for _, sv := range sinks {
+				if dependsOn(w, sv, func(x ssa.Value) bool {
+					root, p := accessPath(x)
+					return root == ssa.Value(recv) && len(p) > 0 && p[0] == f.Name()
+				}) {
+					ok = true
+				}
+			}
+		}
+		r.Ob(ri, w.FnName(fn)+"|covers|"+f.Name(), fn.Pos(), ok, "field "+f.Name()+" of the rule definition does not reach the rule hash: an update changing only this part is not detected and the replaced version keeps being used")
+	}
+	// and the hash is what EqualTo compares
+	eq := w.Method(ra.t, "FindRule")
+	_ = eq
 }
